@@ -26,13 +26,33 @@ def optCh : Option Nat → String
 
 def listOr (e : String) (l : List String) : String := if l.isEmpty then e else ",".intercalate l
 
+/-- a declared link: gates, delay of the idle channel for the test message, latency, bitrate -/
+structure Link where
+  a : Nat
+  b : Nat
+  delay : Option Nat
+  lat : Nat := 0
+  br : Nat := 0
+
 structure St where
   n : Nat                                   -- gate ids are < n (fuel of the walks)
-  net : Net := Net.empty
+  net : Net := Net.empty                    -- wiring after the build phase / after the last processed run-time connect
   sp : Paths.State
   owner : List (Nat × Nat) := []            -- gate ↦ module
   down : List (Nat × Nat) := []             -- module ↦ time of its shutdown
-  links : List (Nat × Nat × Option Nat) := []   -- declared channel of every effective link (spec side)
+  links : List Link := []                   -- every effective link (spec side)
+  snaps : List (Nat × Net × Paths.State) := []   -- (time, wiring, paths) after each run-time connect, latest first
+
+/-- the wiring at time `t` -/
+def St.netAt (st : St) (build : Net) (t : Nat) : Net :=
+  match st.snaps.find? (fun s => s.1 ≤ t) with
+  | some s => s.2.1
+  | none => build
+
+def St.spAt (st : St) (build : Paths.State) (t : Nat) : Paths.State :=
+  match st.snaps.find? (fun s => s.1 ≤ t) with
+  | some s => s.2.2
+  | none => build
 
 def St.ownerOf (st : St) (g : Nat) : Nat := ((st.owner.find? (·.1 == g)).map (·.2)).getD 0
 
@@ -42,8 +62,10 @@ def St.active (st : St) (m t : Nat) : Bool :=
   | some (_, d) => t < d
   | none => true
 
-def St.linkChan (st : St) (a b : Nat) : Option Nat :=
-  ((st.links.find? fun l => (l.1 == a && l.2.1 == b) || (l.1 == b && l.2.1 == a)).map (·.2.2)).getD none
+def St.link? (st : St) (a b : Nat) : Option Link :=
+  st.links.find? fun l => (l.a == a && l.b == b) || (l.a == b && l.b == a)
+
+def St.linkChan (st : St) (a b : Nat) : Option Nat := ((st.link? a b).map (·.delay)).getD none
 
 /-- the walk line the model predicts -/
 def modelWalk (st : St) (g : Nat) : String :=
@@ -76,41 +98,63 @@ def showFate : Fate → String
   | .outOfFuel => "out-of-fuel"
   | .sendPanic => "skipped-transit"
 
-/-- the owner of `g` runs its handler at `at_` (only if it is still active) and sends -/
-def modelFate (st : St) (g at_ delay : Nat) : Option Fate :=
+/-- the owner of `g` runs its handler at `at_` (only if it is still active) and calls `send` / `send_in`;
+    the chain is resolved when the message starts to move, with the wiring of each moment -/
+def modelFate (st : St) (build : Net) (g at_ delay : Nat) : Option Fate :=
   if st.active (st.ownerOf g) at_ then
-    some (send st.net st.ownerOf st.active (st.ownerOf g) (st.n + 1) g (at_ + delay))
+    some (sendIssued (st.netAt build) st.ownerOf st.active (st.ownerOf g) (st.n + 1) g at_ (at_ + delay))
   else none
 
-def modelSend (st : St) (g at_ delay : Nat) : String :=
-  match modelFate st g at_ delay with
+def modelSend (st : St) (build : Net) (g at_ delay : Nat) : String :=
+  match modelFate st build g at_ delay with
   | some f => showFate f
   | none => "n=0"
 
 inductive SpecFate
-  | transit | senderDown | dropped | unseen
+  | transit | senderDown | dropped | unseen | ambiguous
   | delivered (rx : Nat) (t : Nat) (sender : Nat) (last : Nat)
 
-/-- the specification: the message visits the gates of the abstract path in order, gate `i` at
-    send time + the declared delays of the first `i` hops; it is dropped on the first gate before the
-    last whose owner is inactive at that moment, and ignored if the far-end owner is inactive on arrival -/
-def specFate (st : St) (g at_ delay : Nat) : SpecFate :=
-  if !st.active (st.ownerOf g) at_ then .senderDown else
-  match Paths.walkFrom st.sp g with
-  | none => .transit
-  | some rest =>
-    let rec go (cur : Nat) (t : Nat) : List Nat → SpecFate
+/-- the specification: the send is refused if the gate is an inner gate when the call is made; from
+    the send time on the message moves along the abstract path as it is at each moment (gate `i` at send
+    time + the declared delays of the first `i` hops); it is dropped on the first gate before the last
+    whose owner is inactive at that moment, and ignored if the far-end owner is inactive on arrival.
+    `ambiguous`: the path set alone does not determine the direction (start gate became an inner gate). -/
+def specGo (st : St) (buildSp : Paths.State) (g : Nat) : Nat → Nat → Option Nat → Nat → SpecFate
+  | 0, _, _, _ => .ambiguous
+  | fuel + 1, cur, prev, t =>
+    match Paths.neighbours (st.spAt buildSp t) cur with
+    | none => .ambiguous
+    | some ns =>
+      match ns.filter (fun x => some x != prev) with
       | [] => if st.active (st.ownerOf cur) t then .delivered (st.ownerOf cur) t (st.ownerOf g) cur else .unseen
-      | nxt :: more =>
+      | [nxt] =>
         if !st.active (st.ownerOf cur) t then .dropped
-        else go nxt (t + (st.linkChan cur nxt).getD 0) more
-    go g (at_ + delay) rest
+        else specGo st buildSp g fuel nxt (some cur) (t + (st.linkChan cur nxt).getD 0)
+      | _ => .ambiguous
 
-def specSend (st : St) (g at_ delay : Nat) : String :=
-  match specFate st g at_ delay with
-  | .transit => "skipped-transit"
-  | .senderDown | .dropped | .unseen => "n=0"
-  | .delivered rx t sender last => s!"n=1 rx={mname rx} t={t} sender={mname sender} receiver={mname rx} last={gname last}"
+def specFate (st : St) (buildSp : Paths.State) (g at_ delay : Nat) : SpecFate :=
+  if !st.active (st.ownerOf g) at_ then .senderDown else
+  match Paths.walkFrom (st.spAt buildSp at_) g with
+  | none => .transit
+  | some _ => specGo st buildSp g (st.n + 1) g none (at_ + delay)
+
+def specSend (st : St) (buildSp : Paths.State) (g at_ delay : Nat) : Option String :=
+  match specFate st buildSp g at_ delay with
+  | .transit => some "skipped-transit"
+  | .senderDown | .dropped | .unseen => some "n=0"
+  | .ambiguous => none
+  | .delivered rx t sender last => some s!"n=1 rx={mname rx} t={t} sender={mname sender} receiver={mname rx} last={gname last}"
+
+/-- the gates the message visits according to the specification (for the statistics) -/
+def specRoute (st : St) (buildSp : Paths.State) : Nat → Nat → Option Nat → Nat → List Nat
+  | 0, _, _, _ => []
+  | fuel + 1, cur, prev, t =>
+    match Paths.neighbours (st.spAt buildSp t) cur with
+    | some ns =>
+      match ns.filter (fun x => some x != prev) with
+      | [nxt] => cur :: specRoute st buildSp fuel nxt (some cur) (t + (st.linkChan cur nxt).getD 0)
+      | _ => [cur]
+    | none => [cur]
 
 structure Stats where
   links : Nat := 0
@@ -125,6 +169,11 @@ structure Stats where
   drops : Nat := 0        -- dropped on a gate whose owner was shut down (not the last gate)
   unseen : Nat := 0       -- arrived at a far-end owner that was shut down
   senderdown : Nat := 0   -- the sending module was shut down before its send
+  late : Nat := 0         -- connect calls made at run time
+  unwired : Nat := 0      -- delayed sends issued on an unconnected gate that was wired before the send time
+  brsends : Nat := 0      -- messages that crossed a hop with a finite bitrate
+  zerolat : Nat := 0      -- … with a finite bitrate and no latency
+  brlinks : Nat := 0
 
 def maxGate (body : List String) : Nat := Id.run do
   let mut n := 0
@@ -134,6 +183,22 @@ def maxGate (body : List String) : Nat := Id.run do
     | _ => pure ()
   return n
 
+/-- channel arguments of a (l)connect line and the transmission time the implementation reported:
+    `(delay, lat, br)` or an error text -/
+def chanOf (rest : List String) (implToks : List String) : Except String (Option Nat × Nat × Nat) :=
+  match (kv rest "ch").bind String.toNat? with
+  | none => .ok (none, 0, 0)
+  | some lat =>
+    let br := (kvNat rest "br").getD 0
+    match kvNat implToks "tx" with
+    | none => .ok (some lat, lat, br)        -- the call panicked / did not run: the channel is irrelevant
+    | some tx =>
+      -- cross-check: transmission time of the 64-byte test message = 512 bit / bitrate (rounded to ns)
+      let bits := 512 * 1000000000
+      if br = 0 then (if tx = 0 then .ok (some lat, lat, 0) else .error s!"tx={tx}-with-bitrate-0")
+      else if tx * br ≤ bits + br ∧ bits ≤ tx * br + br then .ok (some (lat + tx), lat, br)
+      else .error s!"tx={tx}-but-512bit/{br}bps"
+
 def runCase (c : Case) : String := Id.run do
   let h := words c.header
   let id := (h[1]?).getD "?"
@@ -141,16 +206,26 @@ def runCase (c : Case) : String := Id.run do
   let mut st : St := { n := n, sp := Paths.init n }
   let mut s : Stats := {}
   let mut i := 0
-  -- sends happen when the simulation runs, i.e. after every build-time line
   let isSend := fun (l : String) => l.startsWith "send "
-  for line in c.body.filter (fun l => !isSend l) ++ c.body.filter isSend do
+  let isLate := fun (l : String) => l.startsWith "lconnect "
+  let lateAt := fun (l : String) => (kvNat (words (splitArrow l).1) "at").getD 0
+  let lates := ((c.body.filter isLate).toArray.qsort (fun a b => lateAt a < lateAt b)).toList
+  let mut build : Net := Net.empty
+  let mut buildSp : Paths.State := st.sp
+  let mut built := false
+  -- build lines first, then the run-time connects in time order, then the sends
+  for line in c.body.filter (fun l => !isSend l && !isLate l) ++ lates ++ c.body.filter isSend do
     if line.startsWith "end" then
       if line != "end" then return s!"fail {id} op={i} kind=reject clause=run-failed impl=[{line}]"
+      if !built then
+        build := st.net; buildSp := st.sp; built := true
       continue
     i := i + 1
     let (lhs, rhs) := splitArrow line
     let l := words lhs
     let impl := rhs.trimAscii.toString
+    let implToks := words impl
+    let implHead := (implToks.head?).getD ""
     match l with
     | "mod" :: m :: rest =>
       match ident 'm' m, kvNat rest "down" with
@@ -160,10 +235,12 @@ def runCase (c : Case) : String := Id.run do
       match ident 'g' g, (kv rest "mod").bind (ident 'm') with
       | some g, some m => st := { st with owner := (g, m) :: st.owner }
       | _, _ => return s!"fail {id} op={i} kind=badline detail=[{line}]"
-    | ["connect", a, b, ch] =>
+    | "connect" :: a :: b :: rest =>
       match ident 'g' a, ident 'g' b with
       | some a, some b =>
-        let ch := ((ch.splitOn "=")[1]?).bind String.toNat?
+        match chanOf rest implToks with
+        | .error e => return s!"fail {id} op={i} kind=reject clause=transmission-time line=[{lhs}] detail={e}"
+        | .ok (ch, lat, br) =>
         let (exp, sp') := Paths.connect st.sp a b
         let specAns := match exp with
           | .noop | .linked => "ok"
@@ -171,20 +248,52 @@ def runCase (c : Case) : String := Id.run do
         let (modelAns, net', effective) := match connect st.net a b ch with
           | .ok net' => ("ok", net', !(st.net a).hasPeer b)
           | .error _ => ("panic", st.net, false)
-        if impl != specAns then
+        if implHead != specAns then
           return s!"fail {id} op={i} kind=reject line=[{lhs}] spec={specAns} model={modelAns} impl={impl}"
-        if impl != modelAns then
+        if implHead != modelAns then
           return s!"fail {id} op={i} kind=diverge line=[{lhs}] spec={specAns} model={modelAns} impl={impl}"
         if effective != (exp == .linked) then
           return s!"fail {id} op={i} kind=diverge line=[{lhs}] detail=model-and-spec-disagree-on-linking spec={repr exp}"
         if exp == .linked then
           s := { s with links := s.links + 1 }
+          if br > 0 then s := { s with brlinks := s.brlinks + 1 }
           if sp'.rings.length != st.sp.rings.length then s := { s with rings := s.rings + 1 }
-          st := { st with links := (a, b, ch) :: st.links }
+          st := { st with links := { a := a, b := b, delay := ch, lat := lat, br := br } :: st.links }
         else if exp == .noop then s := { s with noops := s.noops + 1 }
         else s := { s with panics := s.panics + 1 }
         st := { st with net := net', sp := sp' }
       | _, _ => return s!"fail {id} op={i} kind=badline detail=[{line}]"
+    | "lconnect" :: a :: b :: rest =>
+      if !built then
+        build := st.net; buildSp := st.sp; built := true
+      match ident 'g' a, ident 'g' b, kvNat rest "at", (kv rest "by").bind (ident 'm') with
+      | some a, some b, some at_, some by_ =>
+        match chanOf rest implToks with
+        | .error e => return s!"fail {id} op={i} kind=reject clause=transmission-time line=[{lhs}] detail={e}"
+        | .ok (ch, lat, br) =>
+        -- the module makes the call from a handler: only if it is still active; the harness does not call
+        -- `connect` on a full gate (it would panic inside the module)
+        let expect :=
+          if !st.active by_ at_ then "notrun"
+          else if a == b || (st.net a).len ≥ 2 || (st.net b).len ≥ 2 then "skipped"
+          else "ok"
+        if implHead != expect then
+          return s!"fail {id} op={i} kind=reject line=[{lhs}] spec={expect} model={expect} impl={impl}"
+        if expect == "ok" then
+          let (exp, sp') := Paths.connect st.sp a b
+          match connect st.net a b ch with
+          | .ok net' =>
+            let effective := !(st.net a).hasPeer b
+            if effective != (exp == .linked) then
+              return s!"fail {id} op={i} kind=diverge line=[{lhs}] detail=model-and-spec-disagree-on-linking spec={repr exp}"
+            if exp == .linked then
+              st := { st with links := { a := a, b := b, delay := ch, lat := lat, br := br } :: st.links }
+              if br > 0 then s := { s with brlinks := s.brlinks + 1 }
+            st := { st with net := net', sp := sp', snaps := (at_, net', sp') :: st.snaps }
+            s := { s with late := s.late + 1 }
+          | .error _ =>
+            return s!"fail {id} op={i} kind=diverge line=[{lhs}] detail=model-connect-fails impl={impl}"
+      | _, _, _, _ => return s!"fail {id} op={i} kind=badline detail=[{line}]"
     | ["walk", g] =>
       match ident 'g' g with
       | some g =>
@@ -200,31 +309,47 @@ def runCase (c : Case) : String := Id.run do
         | none => pure ()
       | none => return s!"fail {id} op={i} kind=badline detail=[{line}]"
     | "send" :: _ :: rest =>
+      if !built then
+        build := st.net; buildSp := st.sp; built := true
       match (kv rest "gate").bind (ident 'g'), kvNat rest "at", kvNat rest "delay" with
       | some g, some at_, some delay =>
-        let ss := specSend st g at_ delay
-        let ms := modelSend st g at_ delay
+        let ss := specSend st buildSp g at_ delay
+        let ms := modelSend st build g at_ delay
         s := { s with sends := s.sends + 1 }
-        if impl != ss then
-          return s!"fail {id} op={i} kind=reject line=[{lhs}] spec=[{ss}] model=[{ms}] impl=[{impl}]"
-        if impl != ms then
-          return s!"fail {id} op={i} kind=diverge line=[{lhs}] spec=[{ss}] model=[{ms}] impl=[{impl}]"
-        match Paths.walkFrom st.sp g with
-        | some rest =>
-          if rest.length ≥ 2 then s := { s with multihopSends := s.multihopSends + 1 }
-          if delay > 0 then s := { s with delayed := s.delayed + 1 }
+        match ss with
+        | some ss =>
+          if impl != ss then
+            return s!"fail {id} op={i} kind=reject line=[{lhs}] spec=[{ss}] model=[{ms}] impl=[{impl}]"
         | none => pure ()
-        match specFate st g at_ delay with
+        if impl != ms then
+          return s!"fail {id} op={i} kind=diverge line=[{lhs}] spec=[{ss.getD "undetermined"}] model=[{ms}] impl=[{impl}]"
+        let sf := specFate st buildSp g at_ delay
+        match sf with
         | .dropped => s := { s with drops := s.drops + 1 }
         | .unseen => s := { s with unseen := s.unseen + 1 }
         | .senderDown => s := { s with senderdown := s.senderdown + 1 }
         | _ => pure ()
+        match sf with
+        | .senderDown | .transit => pure ()
+        | _ =>
+          let route := specRoute st buildSp (st.n + 1) g none (at_ + delay)
+          if route.length ≥ 3 then s := { s with multihopSends := s.multihopSends + 1 }
+          if delay > 0 then s := { s with delayed := s.delayed + 1 }
+          s := { s with maxhops := max s.maxhops (route.length - 1) }
+          let hops := (route.zip route.tail).filterMap fun p => st.link? p.1 p.2
+          if hops.any (·.br > 0) then s := { s with brsends := s.brsends + 1 }
+          if hops.any (fun l => l.br > 0 && l.lat == 0) then s := { s with zerolat := s.zerolat + 1 }
+          if delay > 0 && Paths.neighbours (st.spAt buildSp at_) g == some [] && route.length ≥ 2 then
+            s := { s with unwired := s.unwired + 1 }
       | _, _, _ => return s!"fail {id} op={i} kind=badline detail=[{line}]"
     | _ => return s!"fail {id} op={i} kind=badline detail=[{line}]"
   -- non-trivial: a chain of >= 3 hops was walked and a message crossed (or was dropped on) a chain of >= 2 hops;
-  -- in a case with shut-down modules additionally >= 1 message met an inactive owner (dropped in transit or ignored on arrival)
+  -- with shut-down modules additionally >= 1 message met an inactive owner (dropped in transit or ignored on arrival);
+  -- with finite-bitrate links >= 1 message crossed one; with run-time connects >= 1 delayed send was issued on a gate
+  -- that was still unconnected and got wired before the send time
   let nt := s.maxhops ≥ 3 && s.multihopSends ≥ 1 && s.links ≥ 3 && (st.down.isEmpty || s.drops + s.unseen ≥ 1)
-  return s!"ok {id} nt={if nt then 1 else 0} ops={i} links={s.links} noops={s.noops} panics={s.panics} rings={s.rings} walks={s.walks} sends={s.sends} multihop={s.multihopSends} delayed={s.delayed} maxhops={s.maxhops} downmods={st.down.length} drops={s.drops} unseen={s.unseen} senderdown={s.senderdown}"
+    && (s.brlinks == 0 || s.brsends ≥ 1) && (s.late == 0 || s.unwired ≥ 1)
+  return s!"ok {id} nt={if nt then 1 else 0} ops={i} links={s.links} noops={s.noops} panics={s.panics} rings={s.rings} walks={s.walks} sends={s.sends} multihop={s.multihopSends} delayed={s.delayed} maxhops={s.maxhops} downmods={st.down.length} drops={s.drops} unseen={s.unseen} senderdown={s.senderdown} late={s.late} unwired={s.unwired} brlinks={s.brlinks} brsends={s.brsends} zerolat={s.zerolat}"
 
 def main (stdin : IO.FS.Stream) : IO Unit := do
   let cases ← readCases stdin
